@@ -1,6 +1,7 @@
 import ScVerif.Base.Line
 import ScVerif.C03.Model
 import ScVerif.C03.Equiv
+import ScVerif.C03.Compose
 /-!
 Driver handler for C03.  Messages are pairs of integers `(l, t)` (two independent fields); a plain integer `k`
 stands for `(k, 0)`.
@@ -26,6 +27,11 @@ Answer: `store=…|S0=<live|gone|unreg>:<view>:<events>|…|pubs=<in flight>|loc
 Decision tables (K2): `fwd <incl> <mask> <id> <old|-> <new|->` — one change through the forwarder: `drop` or
 `<A|U|R>:<old>:<new>`; `merge <A|U|P|R>/<old|->/<new|-> <A|U|P|R>/<old|->/<new|->` — the merge stage holding the first
 change receives the second (same id): `cancel` or `<A|U|R>:<old>:<new>`.
+
+Composing adapter (openclosepb `Model.PullPositions`): `compose <updatesOnly 0|1> <emptyAtSubscribe 0|1> <mask n|s|p>
+<changes>` with changes `-` or comma separated `<id>=<val|nil>/<s|S|u>` (seed value, LAST seed value, update): the
+messages sent, `;` separated, each `<states>#<preset>` (mask `s`: states only, `p`: preset only; the preset `P` stands
+for exactly the states `1=41,2=42`), then `|last=<message|none>`.
 -/
 namespace ScVerif.C03
 open ScVerif.Line
@@ -223,8 +229,40 @@ def handleTable (toks : List String) : Option String :=
     | _ => none
   | _ => none
 
+/-- the composed message of the driver: states listed by id, the preset derived from ALL states, then the caller's
+response filter (`n` none, `s` the states only, `p` the preset only) -/
+def composeMsg (mask : Char) (all : Nat → Option V) : String :=
+  let states := showView all
+  let preset := if states = "1=41,2=42" then "P" else ""
+  if mask = 's' then s!"{states}#" else if mask = 'p' then s!"#{preset}" else s!"{states}#{preset}"
+
+def parseChg? (s : String) : Option (Compose.Chg V) :=
+  match s.splitOn "/" with
+  | [kv, fl] =>
+    match kv.splitOn "=" with
+    | [k, v] => do
+      let k ← parseNat? k
+      let v ← (if v = "nil" then some none else (parseVal? v).map some)
+      if fl = "s" then pure ⟨k, v, true, false⟩
+      else if fl = "S" then pure ⟨k, v, true, true⟩
+      else if fl = "u" then pure ⟨k, v, false, false⟩
+      else none
+    | _ => none
+  | _ => none
+
+def handleCompose (toks : List String) : Option String :=
+  match toks with
+  | ["compose", uo, emp, mask, chgs] => do
+    let uo ← (if uo = "1" then some true else if uo = "0" then some false else none)
+    let emp ← (if emp = "1" then some true else if emp = "0" then some false else none)
+    let mask ← (match mask.toList with | [c] => (if c = 'n' || c = 's' || c = 'p' then some c else none) | _ => none)
+    let cs ← (if chgs = "-" then some [] else (chgs.splitOn ",").mapM parseChg?)
+    let st : Compose.St V String := Compose.runAd (composeMsg mask) uo emp cs
+    pure (";".intercalate st.out ++ "|last=" ++ st.last.getD "none")
+  | _ => none
+
 def handle (toks : List String) : String :=
-  match handleTable toks with
+  match (handleTable toks).orElse (fun _ => handleCompose toks) with
   | some r => r
   | none =>
   match toks with
